@@ -2,22 +2,29 @@
    the python check derived from the implementation's log.
 
    antsrun <fixed|orig> <urg 0|1> <N> <ntasks> <task>... <ev>...
-     task: <send>,<T>,<R>,<discard>,<onerr>|<dur>:<honours>:<val>:<err>|...   (as for cmd/ftants)
-     ev:   <t>:S:<k> | <t>:P:<k> | <t>:Q:<k>:<a>:<seq> | <t>:H:<k>:<a> | <t>:R:<k>:<a>:<saw>
+     task: <send>,<T>,<R>,<discard>,<onerr>|<dur>:<honours>:<val>:<err>[:<cancels>]|...   (as for cmd/ftants)
+     ev:   <t>:S:<k> | <t>:P:<k> | <t>:Q:<k>:<a>:<seq>[:<lo>] | <t>:H:<k>:<a> | <t>:R:<k>:<a>:<saw>
            | <t>:U:<k>:<a> | <t>:D:<k>:<via> | <t>:G:<k>          saw, via in {0,1,?}
+           | <t>:C:0   the dispatchers' parent context is cancelled (AnParentCancel)
+           | <t>:X:<k>:<a>   the handler of (k, a), about to return, cancels it: AnParentCancel, applied only
+                             when that handler is due to return now (it is a running slot with r = now)
    Events are grouped by their instant t (ascending).  Between instants the driver applies
    AnAdvance (must be accepted: with urg=1 the model refuses to pass a due time).  Within
    an instant it repeatedly applies the first event of the bag that [an_step] accepts.  Q
    (enqueue of the inner callback) is only a hint "not before t": it stays pending until
-   the model accepts it, and Q events are applied in <seq> order (= order of the handler
-   starts in the log: the inner channel is FIFO).  Every other event must be accepted
+   the model accepts it, and Q events are applied in the order of the handler starts in the
+   log (the inner channel is FIFO): a Q is applied only when at least <lo> Q events have been
+   applied, lo = number of handler starts stamped strictly earlier than this callback's
+   handler start (the log order of starts within ONE instant is the order in which the inner
+   workers reached the log mutex, not the order in which they received from the channel, so
+   it does not constrain the replay; lo defaults to seq = strict log order).  Every other event must be accepted
    within its instant, otherwise the answer is REJECT.  A '?' (a same-instant tie the log
    cannot resolve) is enumerated: the answer is then the SET of results.
    antscoq ... : same arguments; prints the accepted history as a Coq term. *)
 open Model
 open Conv
 
-type ev = { t : z; kind : char; k : int; a : int; seq : int; flag : char; txt : string }
+type ev = { t : z; kind : char; k : int; a : int; seq : int; lo : int; flag : char; txt : string }
 
 let zlt a b = (Z.compare a b) = Lt
 let zeq a b = (Z.compare a b) = Eq
@@ -32,7 +39,7 @@ let parse_task (tok : string) : an_opts =
     (match String.split_on_char ',' hd with
      | [_send; tt; r; d; e] ->
        let bl = List.map (fun b -> match String.split_on_char ':' b with
-           | [dur; h; v; er] ->
+           | [dur; h; v; er] | [dur; h; v; er; _] ->
              { ab_dur = z_of_string dur; ab_honours = (h = "1");
                ab_val = (if int_of_string v < 0 then None else Some (z_of_string v));
                ab_err = parse_err er }
@@ -45,17 +52,18 @@ let parse_task (tok : string) : an_opts =
 let parse_ev (tok : string) : ev =
   match String.split_on_char ':' tok with
   | t :: kind :: k :: rest ->
-    let base = { t = z_of_string t; kind = kind.[0]; k = int_of_string k; a = 0; seq = 0; flag = ' '; txt = tok } in
+    let base = { t = z_of_string t; kind = kind.[0]; k = int_of_string k; a = 0; seq = 0; lo = 0; flag = ' '; txt = tok } in
     (match kind.[0], rest with
-     | ('S' | 'P' | 'G'), [] -> base
-     | 'Q', [a; seq] -> { base with a = int_of_string a; seq = int_of_string seq }
-     | ('H' | 'U'), [a] -> { base with a = int_of_string a }
+     | ('S' | 'P' | 'G' | 'C'), [] -> base
+     | 'Q', [a; seq] -> { base with a = int_of_string a; seq = int_of_string seq; lo = int_of_string seq }
+     | 'Q', [a; seq; lo] -> { base with a = int_of_string a; seq = int_of_string seq; lo = int_of_string lo }
+     | ('H' | 'U' | 'X'), [a] -> { base with a = int_of_string a }
      | 'R', [a; saw] -> { base with a = int_of_string a; flag = saw.[0] }
      | 'D', [via] -> { base with flag = via.[0] }
      | _ -> failwith ("bad event " ^ tok))
   | _ -> failwith ("bad event " ^ tok)
 
-let show_err = function AnNil -> "nil" | AnE z -> "E" ^ string_of_z z | AnDeadline -> "DE" | AnDiscard -> "DISC"
+let show_err = function AnNil -> "nil" | AnE z -> "E" ^ string_of_z z | AnDeadline -> "DE" | AnDiscard -> "DISC" | AnCanceled -> "CANCELED"
 let show_val = function None -> "nil" | Some z -> string_of_z z
 let show_pair (v, e) = show_val v ^ "/" ^ show_err e
 let show_phase = function
@@ -87,7 +95,7 @@ let replay (cfg : an_cfg) (tasks : an_opts array) (evs : ev list) : an_state * a
     match x.kind with
     | 'S' -> if int_of_nat (an_next !s) = x.k && x.k < Array.length tasks then Some (AnSend tasks.(x.k)) else None
     | 'P' -> Some (AnPick k)
-    | 'Q' -> if x.seq <> !next_seq then None
+    | 'Q' -> if x.lo > !next_seq then None
       else (match at_phase (an_tk !s k) with
           | AnEnq (a', _) when int_of_nat a' = x.a -> Some (AnEnqueue k)
           | _ -> None)
@@ -96,6 +104,10 @@ let replay (cfg : an_cfg) (tasks : an_opts array) (evs : ev list) : an_state * a
     | 'U' -> Some (AnPublish (k, a))
     | 'D' -> Some (AnDecide (k, x.flag = '1'))
     | 'G' -> Some (AnGet2 k)
+    | 'C' -> Some AnParentCancel
+    | 'X' ->
+      if List.exists (function AnRun (k', a', _, r, _) -> k' = k && a' = a && zeq r (an_now !s) | _ -> false) (an_workers !s)
+      then Some AnParentCancel else None
     | _ -> None in
   let rec drain () =
     let rec pick before = function
@@ -165,7 +177,7 @@ let run_one cfg tasks evs =
 let cz z = "(" ^ string_of_z z ^ ")"
 let cnat n = string_of_int n ^ "%nat"
 let cbool b = if b then "true" else "false"
-let cerr = function AnNil -> "AnNil" | AnE z -> "(AnE " ^ cz z ^ ")" | AnDeadline -> "AnDeadline" | AnDiscard -> "AnDiscard"
+let cerr = function AnNil -> "AnNil" | AnE z -> "(AnE " ^ cz z ^ ")" | AnDeadline -> "AnDeadline" | AnDiscard -> "AnDiscard" | AnCanceled -> "AnCanceled"
 let cval = function None -> "None" | Some z -> "(Some " ^ cz z ^ ")"
 let cbeh b = Printf.sprintf "{| ab_dur := %s; ab_honours := %s; ab_val := %s; ab_err := %s |}"
     (cz b.ab_dur) (cbool b.ab_honours) (cval b.ab_val) (cerr b.ab_err)
@@ -181,6 +193,7 @@ let cev = function
   | AnDecide (k, b) -> Printf.sprintf "AnDecide %s %s" (cnat (int_of_nat k)) (cbool b)
   | AnGet2 k -> "AnGet2 " ^ cnat (int_of_nat k)
   | AnAdvance d -> "AnAdvance " ^ cz d
+  | AnParentCancel -> "AnParentCancel"
 let ccfg c = Printf.sprintf "{| an_N := %s; an_pub := %s; an_urg := %s |}" (cnat (int_of_nat c.an_N))
     (match c.an_pub with AnSharedFields -> "AnSharedFields" | AnAttemptChannel -> "AnAttemptChannel") (cbool c.an_urg)
 
